@@ -4,3 +4,4 @@ pub mod textgen;
 pub mod c16;
 pub mod c06;
 pub mod c20;
+pub mod c19;
